@@ -230,7 +230,7 @@ func pairAlphabets(thorough bool) map[string][]call {
 		for n := 0; n <= 12; n++ {
 			add("pdf", []byte(Filler("ABCDEFGHIJKLMNOPQRSTUVWXYZ ", n)), lv)
 		}
-		for _, s := range []string{"a", "1", ";", "aB1;& ", "1234567890123", strings.Repeat("7", 44), strings.Repeat("8", 45), "\x80", "\x81\x82\x83\x84\x85\x86", "\x87\x88\x89\x8a\x8b\x8c\x8d", "ab\x80cd;;;;;", "Café au lait"} {
+		for _, s := range []string{"a", "1", ";", "aB1;& ", "1234567890123", strings.Repeat("7", 44), strings.Repeat("8", 45), "\x80", "\x81\x82\x83\x84\x85\x86", "\x87\x88\x89\x8a\x8b\x8c\x8d", "ab\x80cd;;;;;", "Café au lait", "report", "weekly\xe9report", "abcdef", "xyz\x80abcdef", "ABCDEF", "q\x80ABCDEF"} {
 			add("pdf", []byte(s), lv)
 		}
 	}
